@@ -480,7 +480,7 @@ PROPS = {
         runs=[dict(comp="sort", quick=1600, thorough=40000),
               # "iteration reflects current utilisation" under CONCURRENT notifications: the C14 final-state scenario on the real node collection
               dict(comp="lock", quick=1, thorough=1, extra=["-mode", "only:node-collection-concurrent-updates"])],
-        classify=lambda v, case: [w for w in [p.split()[0] + ("-" + p.split()[1] if p.split()[0] == "diff" else "") for p in (v[4:] if v.startswith("inv ") else v).split(" ;; ") if p.split()] if w.startswith("C19.") or w.startswith("diff")],
+        classify=lambda v, case: [w for w in [p.split()[0] + ("-" + p.split()[1] if p.split()[0] == "diff" else "") for p in (v[4:] if v.startswith("inv ") else v).split(" ;; ") if p.split()] if w.startswith("C19.") or w.startswith("diff") or w.startswith("C14.final-state[node-collection")],
         nontrivial=lambda line: True,
         rule="sort: (queues) candidate sets of 2..6 sibling queues with many ties (priority, fair share against own guaranteed/fair max, pending) presented to the real sortQueue in two random permutations, for fair/fifo x priority on/off; "
              "(apps) 2..6 applications (ask priority, submission time, usage share) sorted twice by the real sortApplications (its input is a Go map); (asks) histories of inserts/removes on the real sortedRequests incl. extreme int32 priorities; "
